@@ -89,6 +89,7 @@ func (in *Interp) runPath(fn *ssa.Function, argv []Value, p pendingPath) {
 	in.pathMaybeInfeasible = false
 	in.deferOwner = nil
 	in.errWhere = ""
+	in.errStack = nil
 	in.ctxBounds = map[*Term]urange{}
 	in.ctxMemo = map[int]urange{}
 	in.epoch++
@@ -103,6 +104,9 @@ func (in *Interp) runPath(fn *ssa.Function, argv []Value, p pendingPath) {
 				case unsupportedErr:
 					status = "unsupported"
 					in.cs.Inconclusive = append(in.cs.Inconclusive, "unsupported: "+x.what+" at "+in.errWhere)
+					if debugStack {
+						fmt.Fprintf(os.Stderr, "STACK for %q:\n  %s\n", x.what, strings.Join(in.errStack, "\n  "))
+					}
 				case budgetErr:
 					status = "budget"
 					in.cs.Inconclusive = append(in.cs.Inconclusive, "budget: "+x.what+" at "+in.errWhere)
